@@ -323,6 +323,7 @@ func (c *conn) closeChannels() {
 	c.channels.Range(func(id bin.Bin128, _ internalChannel) bool {
 		// Whoever removes the channel from the map frees it, exactly once:
 		// the send and receive loops may be handling its close message concurrently.
+		vtr("cl.del", id, 0, 0)
 		if ch, ok := c.channels.Delete(id); ok {
 			ch.free()
 		}
